@@ -14,11 +14,14 @@
   convergence theorems; that the two rebased replace steps *do* apply is proved under the decidable guard
   `commuteGuard` (`commute_succeeds_replace`: one step inside a node the other does not touch; false
   without a guard, `commute_needs_guard`), and likewise for a replace step outside `[from, to]` of a
-  replace-around step (`commute_succeeds_around`).
+  replace-around step (`commute_succeeds_around`) and for two replace-around steps one after the other
+  (`commute_succeeds_around_around`), and for a node-mark / attr step before a replace-around step
+  (`commute_succeeds_around_nodeStep_before_partial`).  A step strictly inside the kept gap: guard `gapGuard` found and tied to the
+  real code, theorem `commute_succeeds_around_gap` stated, not proved (last section: what is missing).
   Helper lemmas: Proofs/Commute.lean, Proofs/CommuteMarkup.lean, Proofs/CommuteSuccess.lean,
   Proofs/CommuteSuccessR.lean, Proofs/Lvl.lean; for replace-around steps Proofs/CommuteAround.lean,
   Proofs/CommuteAroundDocs.lean, Proofs/CommuteAroundMarkup.lean, Proofs/CommuteAroundSuccess.lean,
-  Proofs/ContentBetweenToks.lean.
+  Proofs/CommuteAroundAgain.lean, Proofs/ContentBetweenToks.lean.
 -/
 import PM.Step
 import Proofs.StepToks
@@ -30,6 +33,7 @@ import Proofs.CommuteAround
 import Proofs.CommuteAroundDocs
 import Proofs.CommuteAroundMarkup
 import Proofs.CommuteAroundSuccess
+import Proofs.CommuteAroundAgain
 namespace PM.C17
 open PM
 
@@ -1159,5 +1163,263 @@ theorem commute_succeeds_around (S : Schema) (d da db : Node) (f t gf gt ins f1 
   rcases hg with ⟨h, hg⟩ | ⟨h, hg⟩
   · exact commute_succeeds_around_before S d da db f t gf gt ins f1 t1 sl s1 st b1 hn hsn1 hsn hs h ha hb hg
   · exact commute_succeeds_around_after S d da db f t gf gt ins f1 t1 sl s1 st b1 hn hsn1 hsn hs h ha hb hg
+
+/-! ### both rebased orders apply — two replace-around steps, one after the other
+
+A replace-around step that applies *is* a plain replace of `[from, to)` by its filled slice
+(`around_as_replace`, Proofs/CommuteAroundAgain.lean), so `commute_succeeds_replace` gives the two rebased
+plain replaces; each is again the replace-around step it came from because the partner only touched tokens
+outside `[from, to]` (`around_again_same`, `around_again_shifted`: the gap is cut again as the same closed
+slice, the structure checks read the same tokens).  The guard is `commuteGuard` on `(from, to, slice)` of
+both steps (the filled slices have the open-start depths of the steps' slices).  False without a guard
+(`commute_around_around_needs_guard` below). -/
+
+theorem apply_replace_norm (S : Schema) (d da : Node) (f t : Nat) (sl : Slice) (b : Bool)
+    (hn : fnorm d.kids = true) (hsn : fnorm sl.content = true)
+    (ha : S.apply (.replace f t sl b) d = .ok da) : fnorm da.kids = true := by
+  obtain ⟨ty, a, m, K, Ka, rfl, rfl, hr⟩ := fromReplace_elem S d da f t sl
+    (apply_replace_fromReplace S d da f t sl b ha)
+  exact replaceKids_norm S ty K f t sl Ka hn hsn hr
+
+/-- **two replace-around steps, the second one strictly after the first one (`to < from'`), one of them inside a
+    node the other one does not touch** (`commuteGuard` on `(from, to, slice)` of both): neither rebased step
+    is dropped, both orders apply, and they give the same document -/
+theorem commute_succeeds_around_around (S : Schema) (d da db : Node)
+    (f t gf gt ins f' t' gf' gt' ins' : Nat) (sl sl' : Slice) (st st' : Bool)
+    (hn : fnorm d.kids = true) (hsn : fnorm sl.content = true) (hsn' : fnorm sl'.content = true)
+    (hs : AroundShape f t gf gt sl ins) (hs' : AroundShape f' t' gf' gt' sl' ins') (hsep : t < f')
+    (ha : S.apply (.replaceAround f t gf gt sl ins st) d = .ok da)
+    (hb : S.apply (.replaceAround f' t' gf' gt' sl' ins' st') d = .ok db)
+    (hg : commuteGuard d.kids f t sl f' t' sl' = true) :
+    ∃ A' B' dab,
+      (Step.replaceAround f t gf gt sl ins st).map
+        (Step.replaceAround f' t' gf' gt' sl' ins' st').getMap = some A' ∧
+      (Step.replaceAround f' t' gf' gt' sl' ins' st').map
+        (Step.replaceAround f t gf gt sl ins st).getMap = some B' ∧
+      S.apply B' da = .ok dab ∧ S.apply A' db = .ok dab := by
+  obtain ⟨gap, I, hgap, ho1, ho2, hinst, ha2, hio, hin, hisz, hl⟩ :=
+    around_as_replace S d da f t gf gt ins sl st hn hsn hs ha
+  obtain ⟨gap', I', hgap', ho1', ho2', hinst', hb2, hio', hin', hisz', hl'⟩ :=
+    around_as_replace S d db f' t' gf' gt' ins' sl' st' hn hsn' hs' hb
+  have hgo := hs.2.2
+  have hgo' := hs'.2.2
+  have hg' : commuteGuard d.kids f t I f' t' I' = true := by
+    rw [commuteGuard_openStart _ _ _ _ _ sl sl' I I' hio hio']; exact hg
+  obtain ⟨a', b', dab, hb', ha', hab, hba⟩ := commute_succeeds_replace S d da db f t f' t' I I'
+    false false hn hin hin' hsep ha2 hb2 hg'
+  obtain ⟨hda, _, _, hleni⟩ := apply_replace_splice S d da f t I false ha2
+  obtain ⟨hdb, _, _, _⟩ := apply_replace_splice S d db f' t' I' false hb2
+  obtain ⟨r1, r2⟩ := rebase_separated_after f t f' t' I I' false false (by omega) (by omega) hsep (by omega)
+  rw [r1] at hb'; rw [r2] at ha'
+  simp only [Option.some.injEq] at hb' ha'
+  subst hb' ha'
+  have hna := apply_replace_norm S d da f t I false hn hin ha2
+  have hnb := apply_replace_norm S d db f' t' I' false hn hin' hb2
+  obtain ⟨e1, e2⟩ := (rebase_around_around f t gf gt ins f' t' gf' gt' ins' sl sl' st st' hgo hgo').1 hsep
+  refine ⟨_, _, dab, e1, e2, ?_, ?_⟩
+  · have n : ∀ p : Nat, t < p →
+        ((p : Int) + (((ins : Int) - ((gf : Int) - f)) + (sl.size - ins - ((t : Int) - gt)))).toNat =
+          f + I.toks.length + (p - t) := by
+      intro p hp; omega
+    have n' : ∀ p : Nat, t < p → ((p : Int) + I.size - ((t : Int) - f)).toNat = f + I.toks.length + (p - t) := by
+      intro p hp; omega
+    rw [n f' (by omega), n t' (by omega), n gf' (by omega), n gt' (by omega)]
+    have hfr := apply_replace_fromReplace S da dab _ _ I' false hab
+    rw [n' f' (by omega), n' t' (by omega)] at hfr
+    exact around_again_shifted S d da db dab f' t' gf' gt' ins' f t sl' I.toks st' gap' I' hn hna hgo' hsep
+      (by omega) hl' hda hb hgap' ho1' ho2' hinst' hfr
+  · have hfr := apply_replace_fromReplace S db dab _ _ I false hba
+    exact around_again_same S d db da dab f t gf gt ins f' t' sl I'.toks st gap I hn hnb hgo hsep
+      (by omega) hl' hdb ha hgap ho1 ho2 hinst hfr
+
+/-! ### both rebased orders apply — replace-around step vs. node-mark / attr step
+
+A node-markup step *is* the replace of the addressed token by the re-created node (`nodeStep_full`), so
+`commute_succeeds_replace` applies to it and the filled replace of the replace-around step; the rebased node step
+finds the same token (hence re-creates the same node, `nodeAtKids_of_head`), the rebased replace-around step is the
+same step again (`around_again_shifted`).
+
+FULL STATEMENTS (not proved):
+    commute_succeeds_around_nodeStep : the same for `pos + 1 < f ∨ (gf < pos ∧ pos + 1 < gt) ∨ t < pos`, without `hg`
+      for attr / remove-node-mark steps (they change no mark set a parent could refuse; add-node-mark needs that the
+      parent of the addressed node keeps its type, finding C17-parent-retyped);
+    commute_succeeds_around_removeMark, commute_succeeds_around_addMark_partial (under `ParentStable`).
+Proved: the node step strictly before `from` (its token may be an ancestor's open token), under `commuteGuard`
+(not forced for attr steps: a guard-free proof needs "a replace does not read the markup of tokens outside its range
+except through `validContent` of rebuilt parents", which does not exist yet).  Missing for the rest:
+* `t < pos`: the same proof with `around_again_same` and `nodeAtKids_of_head` at the shifted position — not done
+  for lack of time, nothing new needed;
+* inside the gap: as for `commute_succeeds_around_gap` below (the filled slice differs in one token's markup);
+* mark steps: their slice may be open, and `da.slice f2' t2'` has to be shown to carry the same markup on its open
+  spine as `d.slice f2 t2` (`slice_again` covers closed slices only); alternatively `addMark_applies` /
+  `removeMark_applies` on `da` (valid document, `TextLoop`) for the mark step and `replaceKids_map`-style re-validation
+  for the replace-around step on `db`. -/
+
+/-- **a node-mark / attr step on a token strictly before a replace-around step's range, one of the two inside a node
+    the other one does not touch**: neither rebased step is dropped (both unchanged), both orders apply, and they
+    give the same document -/
+theorem commute_succeeds_around_nodeStep_before_partial (S : Schema) (d da db : Node) (f t gf gt ins : Nat)
+    (sl : Slice) (st : Bool) (pos : Nat) (N : Step) (hN : NodeStepAt pos N)
+    (hn : fnorm d.kids = true) (hsn : fnorm sl.content = true)
+    (hs : AroundShape f t gf gt sl ins) (hsep : pos + 1 < f)
+    (ha : S.apply (.replaceAround f t gf gt sl ins st) d = .ok da) (hb : S.apply N d = .ok db)
+    (hg : commuteGuard d.kids pos (pos + 1) ⟨[], 0, 0⟩ f t sl = true) :
+    ∃ dab, N.map (Step.replaceAround f t gf gt sl ins st).getMap = some N ∧
+      (Step.replaceAround f t gf gt sl ins st).map N.getMap = some (.replaceAround f t gf gt sl ins st) ∧
+      S.apply N da = .ok dab ∧ S.apply (.replaceAround f t gf gt sl ins st) db = .ok dab := by
+  have hsp : N.posSpan = some (pos, pos) := by
+    rcases hN with ⟨m, rfl⟩ | ⟨m, rfl⟩ | ⟨n, v, rfl⟩ <;> rfl
+  have hto : N.touch = some (pos, pos + 1) := by
+    rcases hN with ⟨m, rfl⟩ | ⟨m, rfl⟩ | ⟨n, v, rfl⟩ <;> rfl
+  obtain ⟨n, u, hnat, hu, hfrN⟩ := nodeStep_full S d db pos N hN hb
+  obtain ⟨_, _, htok, _, _, _, _⟩ := nodeRepl_toks S d db n u pos _ _ hnat hu hfrN
+  obtain ⟨hsz, hun⟩ := nodeSlice_facts S n u _ _ hu
+  have hnt : n.isText = false := by
+    cases n with
+    | text s m => simp [Schema.recreate] at hu
+    | leaf => rfl
+    | elem => rfl
+  have hb2 : S.apply (.replace pos (pos + 1) ⟨[u], 0, if n.isLeaf then 0 else 1⟩ false) d = .ok db := by
+    simpa [Schema.apply] using hfrN
+  obtain ⟨gap, I, hgap, ho1, ho2, hinst, ha2, hio, hin, hisz, hl⟩ :=
+    around_as_replace S d da f t gf gt ins sl st hn hsn hs ha
+  have hgo := hs.2.2
+  have hg' : commuteGuard d.kids pos (pos + 1) ⟨[u], 0, if n.isLeaf then 0 else 1⟩ f t I = true := by
+    rw [commuteGuard_openStart _ _ _ _ _ ⟨[], 0, 0⟩ sl ⟨[u], 0, if n.isLeaf then 0 else 1⟩ I rfl hio]; exact hg
+  obtain ⟨a', b', dab, hb', ha', hab, hba⟩ := commute_succeeds_replace S d db da pos (pos + 1) f t _ I
+    false false hn hun hin hsep hb2 ha2 hg'
+  obtain ⟨hdb, _, hlp, hlenN⟩ := apply_replace_splice S d db pos (pos + 1) _ false hb2
+  obtain ⟨hda, _, _, _⟩ := apply_replace_splice S d da f t I false ha2
+  obtain ⟨r1, r2⟩ := rebase_separated_after pos (pos + 1) f t ⟨[u], 0, if n.isLeaf then 0 else 1⟩ I false false
+    (by omega) (by omega) hsep (by omega)
+  rw [r1] at hb'; rw [r2] at ha'
+  simp only [Option.some.injEq] at hb' ha'
+  subst hb' ha'
+  have hnb := apply_replace_norm S d db pos (pos + 1) _ false hn hun hb2
+  have hna := apply_replace_norm S d da f t I false hn hin ha2
+  refine ⟨dab, ?_, ?_, ?_, ?_⟩
+  · exact (rebase_markup_not_dropped_around N pos pos hsp (Nat.le_refl _) f t gf gt sl ins st hgo).1 (by omega)
+  · rw [getMap_of_touch N pos (pos + 1) hto]
+    exact replaceAround_map_empty f t gf gt sl ins st ⟨hgo.1, hgo.2.2⟩
+  · -- the node step on `da`: the addressed token is still there
+    have hfr := apply_replace_fromReplace S da dab _ _ _ false hba
+    have htok' : (ftoks da.kids)[pos]? = some n.headTok := by
+      rw [hda]; unfold splice
+      rw [splice_getElem? _ _ _ _ _ (by omega), if_pos (by omega)]
+      have hp : pos < (ftoks d.kids).length := by omega
+      rw [List.getElem?_eq_getElem hp]
+      rw [List.getD_eq_getElem?_getD, List.getElem?_eq_getElem hp] at htok
+      simpa using htok
+    obtain ⟨n', hnat', hhd, hnt'⟩ := nodeAtKids_of_head da.kids pos n.headTok (fnormKids_of_fnorm hna) htok'
+      (by cases n <;> simp [Node.headTok, Node.isText] at hnt ⊢)
+      (by intro c m; cases n <;> simp [Node.headTok, Node.isText] at hnt ⊢)
+    obtain ⟨e1, e2, e3, e4⟩ := recreate_congr_head S n n' (stepAttrs N n.attrs) (stepMarks S N n.marks) hhd hnt hnt'
+    have hu' : S.recreate n' (stepAttrs N n'.attrs) (stepMarks S N n'.marks) = .ok u := by
+      rw [e2, e3, e1]; exact hu
+    rw [nodeStep_apply_of S da n' u pos N hN hnat' hu', e4]
+    exact hfr
+  · have hfr := apply_replace_fromReplace S db dab _ _ I false hab
+    have hl1 : ((Slice.mk [u] 0 (if n.isLeaf then 0 else 1)).toks.length) = 1 := by omega
+    have n1 : ∀ p : Nat, pos + 1 < p →
+        ((p : Int) + (Slice.mk [u] 0 (if n.isLeaf then 0 else 1)).size - ((pos + 1 : Nat) - (pos : Int))).toNat = p := by
+      intro p hp; omega
+    rw [n1 f hsep, n1 t (by omega)] at hfr
+    have := around_again_shifted S d db da dab f t gf gt ins pos (pos + 1) sl _ st gap I hn hnb hgo hsep
+      (by omega) hl hdb ha hgap ho1 ho2 hinst
+      (by rw [hl1, show pos + 1 + (f - (pos + 1)) = f by omega, show pos + 1 + (t - (pos + 1)) = t by omega]; exact hfr)
+    rw [hl1] at this
+    rwa [show pos + 1 + (f - (pos + 1)) = f by omega, show pos + 1 + (t - (pos + 1)) = t by omega,
+      show pos + 1 + (gf - (pos + 1)) = gf by omega, show pos + 1 + (gt - (pos + 1)) = gt by omega] at this
+
+/-! Non-vacuity of the decidable hypotheses of `commute_succeeds_around_around`: in
+    `doc(quote(p("a")), quote(p("b")))` two users re-create the two paragraphs around their content
+    (`set_node_markup`-shaped steps `replaceAround 1 4 2 3 <p>` and `replaceAround 6 9 7 8 <p>`); both have the
+    library's shape, tokens 4 and 5 lie between them, and the first one happens inside the first quote, which the
+    second one does not touch.  (That such pairs apply and converge in the real code: harness counter
+    `guard-around-around:holds`, oracle `commuteGuard=>converge`.) -/
+example :
+    let d : Node := .elem 0 [] [] [.elem 3 [] [] [.elem 1 [] [] [.text [97] []]],
+      .elem 3 [] [] [.elem 1 [] [] [.text [98] []]]]
+    let p : Slice := ⟨[.elem 1 [] [] []], 0, 0⟩
+    AroundShape 1 4 2 3 p 1 ∧ AroundShape 6 9 7 8 p 1 ∧ 4 < 6 ∧ fnorm d.kids = true ∧ fnorm p.content = true ∧
+    commuteGuard d.kids 1 4 p 6 9 p = true := by
+  refine ⟨by decide, by decide, by decide, ?_, ?_, ?_⟩
+  · simp [Node.kids, fnorm, fnormKids, Node.norm, chainOk, adjOk]
+  · simp [fnorm, fnormKids, Node.norm, chainOk]
+  · simp [Node.kids, commuteGuard, insideLeft, depthAt]
+
+/-- non-vacuity of the decidable hypotheses of `commute_succeeds_around_nodeStep_before_partial`: in
+    `doc(quote(p("a")), quote(p("b")))` an attr step on the first paragraph (token 1) against re-creating the second
+    paragraph (`replaceAround 6 9 7 8 <p> 1`): the attr step happens inside the first quote -/
+example :
+    let d : Node := .elem 0 [] [] [.elem 3 [] [] [.elem 1 [] [] [.text [97] []]],
+      .elem 3 [] [] [.elem 1 [] [] [.text [98] []]]]
+    let p : Slice := ⟨[.elem 1 [] [] []], 0, 0⟩
+    NodeStepAt 1 (.attr 1 "k" "v") ∧ AroundShape 6 9 7 8 p 1 ∧ 1 + 1 < 6 ∧
+    commuteGuard d.kids 1 (1 + 1) ⟨[], 0, 0⟩ 6 9 p = true := by
+  refine ⟨.inr (.inr ⟨"k", "v", rfl⟩), by decide, by decide, ?_⟩
+  simp [Node.kids, commuteGuard, insideLeft, depthAt]
+
+/-! ### a step strictly inside the kept gap of a replace-around step: the guard (`gapGuard`, PM/CommuteGuard.lean)
+
+Without a guard the rebased steps need not apply (real code, harness counters `gap-pair:an-order-fails:<opA>/<opB>`,
+182 of 2973 in-gap pairs at seed 0).  The failing pairs are of two kinds, neither excused by C17-parent-retyped:
+* the inner step closes the node the gap lives in (a `split` of the re-typed textblock, a replace whose slice is open
+  deeper than the position is nested inside the gap): after it the range `[gapFrom, gapTo')` is no longer a closed
+  slice and the rebased replace-around step fails ("Gap is not a flat range"); e.g. basic schema,
+  `doc(h1("0\nyxz\n", br), hr)`, `set_node_markup` = `replaceAround 0 9 1 8 <h2> 1` against
+  `replace 7 7 <h1()|code_block("\n𝒳")|h1()>(1,1)`: the replace-around step first, then the replace applies;
+  the replace first, then the replace-around step fails.
+* the inner step adds / removes nodes at the gap's own level and the node the gap is moved into does not accept the
+  new children (both orders fail, or one does).
+`gapGuard d gapFrom gapTo f1 t1 s1` = `replace_outer` of the inner step descends into an element node that lies
+entirely inside `[gapFrom, gapTo]`: the inner step rebuilds nodes inside that node only, so the gap stays a closed
+slice with the same top-level nodes (same types, attrs, marks).  Tie: driver op `gapGuard` against the same predicate
+on the real `ResolvedPos` data, and the relational oracle "guard ⇒ the real code's four applications succeed and give
+equal documents" on every in-gap pair with a replace or replace-around partner (seeds 0–3: no counterexample;
+seed 0: guard true on 1344 pairs, all converge; false on 859, of which 181 have a failing order).
+
+    theorem commute_succeeds_around_gap (hn : fnorm d.kids) (hsn1 : fnorm s1.content) (hsn : fnorm sl.content)
+        (hs : AroundShape f t gf gt sl ins) (h : gf < f1) (h' : t1 < gt)
+        (ha : S.apply (.replace f1 t1 s1 b1) d = .ok da)
+        (hb : S.apply (.replaceAround f t gf gt sl ins st) d = .ok db)
+        (hg : gapGuard d.kids gf gt f1 t1 s1 = true) :
+        ∃ A' R' dab, (Step.replaceAround f t gf gt sl ins st).map (Step.replace f1 t1 s1 b1).getMap = some A' ∧
+          (Step.replace f1 t1 s1 b1).map (Step.replaceAround f t gf gt sl ins st).getMap = some R' ∧
+          S.apply A' da = .ok dab ∧ S.apply R' db = .ok dab
+
+NOT PROVED.  What is there: the rebased steps (`rebase_around_separated`, gap clause), convergence when all four
+applications succeed (`commute_replace_around`).  What is missing, in the order a proof would use it:
+1. `insideGap_decomp` (analogue of `insideLeft_decomp`, Proofs/CommuteSuccess.lean): the guard gives a level
+   `Lvl ty K b nd tyA (P ++ n :: R) ctx` with `n = .elem tyN aN mN kN`, `gf ≤ b + fsize P`,
+   `b + fsize P + n.size ≤ gt`, and the inner replace is `replaceKids S tyN kN g1 h1 s1 = .ok kN'` inside `n`
+   (then `da.kids = ctx (P ++ .elem tyN aN mN kN' :: R)` by `replaceKids_eq`).
+2. `sliceKids_inner_congr`: the gap of `da` at `[gf, gt + δ1)` is the gap of `d` with `n` replaced by
+   `.elem tyN aN mN kN'` at the same place (closed again) — `slice_again` does not apply, the tokens differ.
+3. **the real gap**: `insertAt_inner_congr` + `replaceKids_slice_inner_congr`: `Slice.insertAt` and `replaceKids`
+   succeed alike, with `n` exchanged for `.elem tyN aN mN kN'` in the result, when an element node strictly inside the
+   slice content — not on its open spines — has its children exchanged (same markup, normal form).  This is the
+   slice-side counterpart of `replaceKids_prefix` / `replaceKids_suffix` (which exchange the content of a *document*
+   node next to the range); nothing of the kind exists yet.  It needs "the gap content is never on the open spine of
+   the filled slice", which holds for `insert`-positions the library builds but not for every `AroundShape`
+   (`sl = <ul(li(p))>(3, _)`, `insert = 2` puts the gap in front of `p`): either a further decidable hypothesis
+   (`openStart ≤` depth of the insertion point's left neighbours) or a proof that such a step never applies.
+4. the other order: `replaceKids_eq` under `ctx' ` of `db` — the node `n` sits in `db` inside the nodes of `sl` at
+   `f + ins + (start n − gf)`, found through `replaceKids_toks`-style facts only; needs a `Lvl` for `db` built from the
+   `insertAt` / `replaceKids` results of step 3. -/
+
+/-- the guard holds: in `doc(quote(p("a"), p("b")))`, lifting both paragraphs out of the quote
+    (`replaceAround 0 8 1 7 ⟨[], 0, 0⟩ 0`, gap `[1, 7)`) against typing inside the second paragraph (`5 … 5`):
+    the typing happens inside `p("b")`, which lies inside the gap -/
+example :
+    gapGuard [.elem 3 [] [] [.elem 1 [] [] [.text [97] []], .elem 1 [] [] [.text [98] []]]] 1 7 5 5
+      ⟨[.text [120] []], 0, 0⟩ = true := by
+  simp [gapGuard, insideGap, depthAt]
+
+/-- … and fails for a split of the paragraph whose markup is being changed (`set_node_markup` on `p("ab")`:
+    gap `[1, 3)`, split at 2 with `</p><p>` = slice `<p()|p()>(1,1)`): the split closes the node the gap lives in -/
+example :
+    gapGuard [.elem 1 [] [] [.text [97, 98] []]] 1 3 2 2 ⟨[.elem 1 [] [] [], .elem 1 [] [] []], 1, 1⟩ = false := by
+  simp [gapGuard, insideGap, depthAt]
 
 end PM.C17
